@@ -1,14 +1,39 @@
 ID = "C03"
-LEVEL = "other"
-COQ_TARGETS = ["Extract/ExtractSpec.vo"]
-PROPS_FILES = []
+LEVEL = "proof"
+COQ_TARGETS = ["Props/Properties_C03.vo", "Extract/ExtractSpec.vo"]
+PROPS_FILES = ["Props/Properties_C03.v"]
 RUNS = [dict(name="spec", harness="c03", driver="spec", model_ml="spec_model")]
-EXPLANATION = "wip"
-TRUSTED = []
-MODELLED = []
-ASSUMPTIONS = []
-LEVEL_TEXT = "wip"
-LEVEL_NOTE = "wip"
+EXPLANATION = ("coq/Spec/Spec.v is a decoder written from the Cap'n Proto encoding specification (only /, mod and byte "
+               "indexing; nothing of the Go-faithful model is used). Theorems (coq/Spec/SpecProofs.v) relate it to the "
+               "Go-faithful model of rawpointer.go/segment.go/struct.go/list.go/pointer.go (coq/Core): every pointer-field "
+               "extractor is the spec's bit field for all 64-bit words; readPtr returns a pointer only if the spec resolves "
+               "the same word to the same target, whose bytes lie inside the segments (any input), and returns exactly the "
+               "spec's target when limits suffice; every accessor (UintN, Bit, Ptr, HasPtr, typed list At incl. both "
+               "directions of the primitive/struct list upgrade, Text, Data) returns the spec's value. Independently of the "
+               "model, the extracted spec decoder is run against the real accessors on messages produced by a "
+               "layout-randomising encoder written for this check, on library-built, mutated, raw and cyclic messages.")
+TRUSTED = ["coq/Spec/Spec.v is the author's reading of capnproto.org/encoding.html (not reachable offline): struct/list/far/"
+           "capability pointer layouts, composite tag, landing pads, little-endian words, bits LSB first, list upgrade rules",
+           "the Go-faithful model coq/Core/Reader.v, Arith.v (hand-written; tied to the code by the C01 correspondence and, "
+           "for values, by this check's direct comparison of the real accessors with the spec decoder)",
+           "the harness encoder harness/cmd/c03/enc.go (independent of the library; a wrong encoder shows up as a "
+           "disagreement of BOTH decoders with the expected tree)"]
+MODELLED = ["Go slices (modelled by Reader.slice)", "uint64 budget and uint depth (Z with explicit wrap where Go wraps)"]
+ASSUMPTIONS = ["bytes are 0..255",
+               "completeness only: every segment is at most 2^32-8 bytes; composite element counts < 2^29 (the reader "
+               "rejects larger counts, known finding); the landing pad 'far offset 0 + tag word 0' is excluded (known "
+               "finding: read as null)",
+               "harness runs use T=2^62, D=1000 so that limits never interfere (limits are C02's subject)"]
+LEVEL_TEXT = ("Proof: for all 64-bit words the field extractors equal the spec's fields; for all messages, addresses and "
+              "limits a pointer returned by readPtr is the spec's target and lies inside the segments (one stated "
+              "exception), and conversely the spec's target is returned when limits suffice; all struct/list/text/data "
+              "accessors return the spec's values incl. short/long sections and list upgrades. Tie: the extracted spec "
+              "decoder vs the real accessors on encoder-generated, library-built, mutated, raw and cyclic messages: "
+              "pointer targets, field sweeps over offsets 0..DataSize+8 x widths 1/2/4/8 and all bits, list reads of every "
+              "family, whole-tree walks, and the encoder's own value tree.")
+LEVEL_NOTE = ("Stretch theorem walk_eq_spec (whole-tree equality walk = spec_decode for all fuel): see docs/C03.md for its "
+              "status. Known findings: double-far pointer to a zero-sized struct at word 0 read as null; composite tag "
+              "counts >= 2^29 rejected.")
 TECHNIQUE = "Coq proof over an executable model + extracted-model/implementation differential run"
 DESIGN_REF = "DESIGN.md section 6, C03"
 
